@@ -229,7 +229,7 @@ def create_sink(net, junction, mdot_kg_per_s, scaling=1., name=None, index=None,
     :param in_service: True for in service, False for out of service
     :type in_service: bool, default True
     :param type: Type variable to classify the sink
-    :type type: str, default None
+    :type type: str, default "sink"
     :param kwargs: Additional keyword arguments will be added as further columns to the\
             net["sink"] table
     :return: index - The unique ID of the created element
@@ -272,7 +272,7 @@ def create_source(net, junction, mdot_kg_per_s, scaling=1., name=None, index=Non
     :param in_service: True for in service, False for out of service
     :type in_service: bool, default True
     :param type: Type variable to classify the source
-    :type type: str, default None
+    :type type: str, default "source"
     :param kwargs: Additional keyword arguments will be added as further columns to the\
             net["source"] table
     :return: index - The unique ID of the created element
@@ -308,7 +308,7 @@ def create_mass_storage(net, junction, mdot_kg_per_s, init_m_stored_kg=0, min_m_
                           if fluid flows from storage to net: < 0)
     :type mdot_kg_per_s: float, default None
     :param init_m_stored_kg: The initially stored mass in the storage
-    :type init_m_stored_kg: float, default None
+    :type init_m_stored_kg: float, default 0
     :param min_m_stored_kg: Minimum amount of fluid that has to remain in the storage unit. (To be
                    used with controllers)
     :type min_m_stored_kg: float
